@@ -299,8 +299,8 @@ def extract_fn(text, name):
 # (repo file, function name) -> generated file inside build/liftk/src with the impl wrapper
 LIFT_EXTRACTS_MULTI = {
     # generated file -> (repo file, [function names], wrapper with one %s for the bodies)
-    "lift/index/balance_extract.rs": ("src/index.rs", ["encode_rune_balance"],
-                                      "// GENERATED at run time: Index::encode_rune_balance copied from /repo/src/index.rs\nuse super::*;\n\nimpl Index {\n%s\n}\n"),
+    "lift/index/balance_extract.rs": ("src/index.rs", ["encode_rune_balance", "decode_rune_balance"],
+                                      "// GENERATED at run time: Index::encode_rune_balance / decode_rune_balance copied from /repo/src/index.rs\nuse super::*;\n\nimpl Index {\n%s\n}\n\n#[cfg(test)]\nmod balance_replay;\n"),
     "lift/index/rune_mint_extract.rs": ("src/index/updater/rune_updater.rs", ["mint"],
                                         "// GENERATED at run time: RuneUpdater::mint copied from /repo/src/index/updater/rune_updater.rs\nuse super::*;\n\nimpl MintUpdater<'_> {\n%s\n}\n\n#[cfg(test)]\nmod mint_replay;\n"),
     "lift/index/rune_updater_extract.rs": ("src/index/updater/rune_updater.rs", ["index_runes"],
